@@ -1,8 +1,161 @@
 import Driver.Common
 import NriModel.Events
-open Lean Drv Nri
+import NriModel.Convert
+open Lean Drv Nri Nri.Convert
 
+/-!
+Driver for C14. Case kinds (field `in.kind`):
+
+* `mask`, `parse`, `bits`                       — event.go
+* `res_oci`, `res_nri`                          — resources.go both directions, and `Copy`
+* `mounts_*`, `devices_*`, `hooks_*`, `env_*`   — mount.go, device.go, hooks.go, env.go
+* `helpers`                                     — helpers.go
+* `ctor`                                        — optional.go constructors and `Get`
+* `alias`                                       — the differential mutation test ("copies share no
+                                                   state"): MEASURED by the harness, the driver only
+                                                   folds the reported booleans into `spec`
+* `platform`                                    — asserts the 64-bit `int` the model assumes
+
+`agree` compares the model's result with the implementation's; `spec` evaluates the property's
+predicate on the implementation's own observation without going through the model's
+conversion functions (only the `carried` views and plain equality).
+-/
 namespace Drv.C14
+
+def trunc (s : String) (n : Nat := 400) : String := if s.length > n then (s.take n).toString ++ "…" else s
+def show' {α} [Repr α] (a : α) : String := trunc ((repr a).pretty (width := 1000000))
+/-- the raw case, on one line, for `why` messages -/
+def ctx (inp obs : Json) : String := s!"in={trunc inp.compress 700} obs={trunc obs.compress 900}"
+
+def diffNames {α : Type} (fields : List (String × (α → α → Bool))) (a b : α) : List String :=
+  fields.filterMap fun (n, eq) => if eq a b then none else some n
+
+/-! ### decoding -/
+
+def asInt (j : Json) : Except String Int := match j.getInt? with | .ok i => pure i | .error e => throw e
+def decI64 (j : Json) : Except String I64 := do
+  let i ← asInt j
+  if i < -(2^63 : Int) ∨ i ≥ (2^63 : Int) then throw s!"int64 out of range: {i}" else pure (I64.ofInt i)
+def decU64 (j : Json) : Except String U64 := do
+  let i ← asInt j
+  if i < 0 ∨ i ≥ (2^64 : Int) then throw s!"uint64 out of range: {i}" else pure (U64.ofNat i.toNat)
+def decU32 (j : Json) : Except String U32 := do
+  let i ← asInt j
+  if i < 0 ∨ i ≥ (2^32 : Int) then throw s!"uint32 out of range: {i}" else pure (U32.ofNat i.toNat)
+def decBool (j : Json) : Except String Bool := match j with | .bool b => pure b | _ => throw "not a bool"
+def decStr (j : Json) : Except String Str := match j with | .str s => pure (S s) | _ => throw "not a string"
+
+def opt {α} (j : Json) (k : String) (f : Json → Except String α) : Except String (Option α) :=
+  match getOpt j k with
+  | none => pure none
+  | some v => do pure (some (← f v))
+def req {α} (j : Json) (k : String) (f : Json → Except String α) : Except String α := do
+  match j.getObjVal? k with
+  | .ok v => f v
+  | .error _ => throw s!"missing field {k}"
+def strList (j : Json) (k : String) : Except String (List Str) := do
+  pure ((← getStrList j k).map S)
+def pairList (j : Json) (k : String) : Except String (AList Str Str) := do
+  let a ← getArr j k
+  a.mapM fun x => match x with
+    | Json.arr #[Json.str a, Json.str b] => pure (S a, S b)
+    | _ => throw s!"field {k}: not a pair"
+/-- list whose elements may be `null` (nil pointers in a `[]*T`): the non-null elements and
+    whether a null was seen -/
+def optElems {α} (j : Json) (k : String) (f : Json → Except String α) : Except String (List (Option α)) := do
+  let a ← getArr j k
+  a.mapM fun x => match x with
+    | Json.null => pure none
+    | v => do pure (some (← f v))
+
+def decHp (j : Json) : Except String Hugepage := do
+  pure { pageSize := ← req j "pageSize" decStr, limit := ← req j "limit" decU64 }
+def decDevCg (j : Json) : Except String DevCgroup := do
+  pure { allow := ← req j "allow" decBool, type := ← req j "type" decStr, major := ← opt j "major" decI64,
+         minor := ← opt j "minor" decI64, access := ← req j "access" decStr }
+def decOciMem (j : Json) : Except String OciMemory := do
+  pure { limit := ← opt j "limit" decI64, reservation := ← opt j "reservation" decI64, swap := ← opt j "swap" decI64,
+         kernel := ← opt j "kernel" decI64, kernelTcp := ← opt j "kernelTcp" decI64,
+         swappiness := ← opt j "swappiness" decU64, disableOom := ← opt j "disableOom" decBool,
+         useHierarchy := ← opt j "useHierarchy" decBool, checkBeforeUpdate := ← opt j "checkBeforeUpdate" decBool }
+def decNriMem (j : Json) : Except String NriMemory := do
+  pure { limit := ← opt j "limit" decI64, reservation := ← opt j "reservation" decI64, swap := ← opt j "swap" decI64,
+         kernel := ← opt j "kernel" decI64, kernelTcp := ← opt j "kernelTcp" decI64,
+         swappiness := ← opt j "swappiness" decU64, disableOom := ← opt j "disableOom" decBool,
+         useHierarchy := ← opt j "useHierarchy" decBool }
+def decOciCpu (j : Json) : Except String OciCPU := do
+  pure { shares := ← opt j "shares" decU64, quota := ← opt j "quota" decI64, burst := ← opt j "burst" decU64,
+         period := ← opt j "period" decU64, rtRuntime := ← opt j "rtRuntime" decI64, rtPeriod := ← opt j "rtPeriod" decU64,
+         cpus := ← req j "cpus" decStr, mems := ← req j "mems" decStr, idle := ← opt j "idle" decI64 }
+def decNriCpu (j : Json) : Except String NriCPU := do
+  pure { shares := ← opt j "shares" decU64, quota := ← opt j "quota" decI64,
+         period := ← opt j "period" decU64, rtRuntime := ← opt j "rtRuntime" decI64, rtPeriod := ← opt j "rtPeriod" decU64,
+         cpus := ← req j "cpus" decStr, mems := ← req j "mems" decStr }
+
+/-- nil-ness flags reported next to a resources value -/
+structure ResNil where
+  hugepages : Bool
+  unified : Bool
+  devices : Bool
+deriving DecidableEq, Repr
+
+def decResNil (j : Json) : ResNil :=
+  { hugepages := getBoolD j "hugepagesNil", unified := getBoolD j "unifiedNil", devices := getBoolD j "devicesNil" }
+
+/-- decoded OCI resources (`none` = nil pointer) -/
+def decOciRes (j? : Option Json) : Except String (Option OciResources) := do
+  match j? with
+  | none => pure none
+  | some j =>
+    let hp ← optElems j "hugepages" decHp
+    let dv ← optElems j "devices" decDevCg
+    pure (some { devices := dv.filterMap id, memory := ← opt j "memory" decOciMem, cpu := ← opt j "cpu" decOciCpu,
+                 pids := (← opt j "pids" decI64).map (⟨·⟩), hugepages := hp.filterMap id,
+                 unified := ← pairList j "unified", uncarried := ← strList j "uncarried" })
+
+/-- decoded NRI resources plus "a nil element was present in hugepages / devices" -/
+def decNriRes (j? : Option Json) : Except String (Option NriResources × Bool × Bool) := do
+  match j? with
+  | none => pure (none, false, false)
+  | some j =>
+    let hp ← optElems j "hugepages" decHp
+    let dv ← optElems j "devices" decDevCg
+    let r : NriResources :=
+      { memory := ← opt j "memory" decNriMem, cpu := ← opt j "cpu" decNriCpu, hugepages := hp.filterMap id,
+        blockioClass := ← opt j "blockioClass" decStr, rdtClass := ← opt j "rdtClass" decStr,
+        unified := ← pairList j "unified", devices := dv.filterMap id, pids := (← opt j "pids" decI64).map (⟨·⟩) }
+    pure (some r, (allSome hp).isNone, (allSome dv).isNone)
+
+def decOciMount (j : Json) : Except String OciMount := do
+  pure { destination := ← req j "destination" decStr, type := ← req j "type" decStr, source := ← req j "source" decStr,
+         options := ← strList j "options", idMapped := getBoolD j "idMapped" }
+def decNriMount (j : Json) : Except String NriMount := do
+  pure { destination := ← req j "destination" decStr, type := ← req j "type" decStr, source := ← req j "source" decStr,
+         options := ← strList j "options" }
+def decDev (j : Json) : Except String Device := do
+  pure { path := ← req j "path" decStr, type := ← req j "type" decStr, major := ← req j "major" decI64,
+         minor := ← req j "minor" decI64, fileMode := ← opt j "fileMode" decU32, uid := ← opt j "uid" decU32,
+         gid := ← opt j "gid" decU32 }
+def decHook (j : Json) : Except String Hook := do
+  pure { path := ← req j "path" decStr, args := ← strList j "args", env := ← strList j "env",
+         timeout := ← opt j "timeout" decI64 }
+/-- hooks; second component: some list held a nil element -/
+def decHooks (j? : Option Json) : Except String (Option Hooks × Bool) := do
+  match j? with
+  | none => pure (none, false)
+  | some j =>
+    let l (k : String) := optElems j k decHook
+    let a ← l "prestart"; let b ← l "createRuntime"; let c ← l "createContainer"
+    let d ← l "startContainer"; let e ← l "poststart"; let f ← l "poststop"
+    let bad := [a, b, c, d, e, f].any fun x => (allSome x).isNone
+    pure (some { prestart := a.filterMap id, createRuntime := b.filterMap id, createContainer := c.filterMap id,
+                 startContainer := d.filterMap id, poststart := e.filterMap id, poststop := f.filterMap id }, bad)
+def decKV (j : Json) : Except String KeyValue := do
+  pure { key := ← req j "key" decStr, value := ← req j "value" decStr }
+
+def tagIf (b : Bool) (t : String) : List String := if b then [t] else []
+
+/-! ### event masks -/
 
 /-- kind = "mask": `in = {kind, mask}`; `obs = {pretty, parsed, perr}` where `parsed` is
     `ParseEventMask(PrettyString(mask))`. -/
@@ -32,11 +185,550 @@ def judgeMask (inp obs : Json) : Except String Verdict := do
          sig := if spec then "" else "C14:mask-roundtrip",
          model := Json.mkObj [("pretty", mPretty)] }
 
+def isAscii (s : String) : Bool := s.toList.all fun c => c.toNat < 128
+
+def judgeParse (inp obs : Json) : Except String Verdict := do
+  let evs ← getStrList inp "events"
+  let oErr := getBoolD obs "err"
+  let oMask := getNatD obs "mask"
+  let ascii := evs.all isAscii
+  let mdl := Events.parse (evs.map S)
+  let agree := match mdl with
+    | some r => !oErr && r.toNat == oMask
+    | none => oErr
+  -- no property clause speaks about arbitrary strings; the only direct requirement: a
+  -- successful parse yields valid events only
+  let spec := oErr || (BitVec.ofNat 32 oMask &&& ~~~Events.valid) == 0#32
+  pure { agree := agree || !ascii, spec := spec, excluded := !ascii,
+         sig := if !ascii then "C14:parse:non-ascii" else if spec then "" else "C14:parse:invalid-bits",
+         why := if agree then "" else s!"ParseEventMask{evs}: model {mdl.map (·.toNat)} impl err={oErr} mask={oMask}",
+         cover := ["parse", if oErr then "parse:error" else "parse:ok"], nontrivial := !oErr && oMask != 0 }
+
+def judgeBits (inp obs : Json) : Except String Verdict := do
+  let mN ← getNat inp "mask"
+  let e ← getInt inp "event"
+  let pnc := getStrD obs "panic"
+  if e < 1 then
+    -- Go: `1 << (e-1)` with a negative count panics; outside the model's domain (e ≥ 1)
+    return { agree := pnc != "", spec := true, excluded := true, sig := "C14:bits:event<1",
+             why := if pnc != "" then "" else "expected a negative-shift panic", cover := ["bits", "bits:event<1"] }
+  let m : Events.Mask := BitVec.ofNat 32 mN
+  let en := e.toNat
+  let oIs := getBoolD obs "isSet"
+  let oSet := getNatD obs "set"
+  let oClr := getNatD obs "cleared"
+  let oValid := getNatD obs "valid"
+  let agree := pnc == "" && Events.isSet m en == oIs && (Events.set m en).toNat == oSet &&
+    (Events.clear m en).toNat == oClr && Events.valid.toNat == oValid
+  -- algebra on the implementation's own values
+  let s : Events.Mask := BitVec.ofNat 32 oSet
+  let c : Events.Mask := BitVec.ofNat 32 oClr
+  let inRange := en ≤ 14
+  let spec := !inRange || (oValid == 0x1fff && (s &&& ~~~c) == (s ^^^ c) &&
+      ((s ^^^ c) == (1#32 <<< (en - 1))) && (oIs == (m == s)) && ((!oIs) == (m == c)))
+  pure { agree := agree, spec := spec, excluded := !inRange,
+         sig := if !inRange then "C14:bits:event>14" else if spec then "" else "C14:bits:algebra",
+         why := if agree && spec then "" else s!"mask {mN} event {e}: impl isSet={oIs} set={oSet} clear={oClr} valid={oValid}",
+         cover := ["bits", s!"bits:e{if en ≤ 15 then toString en else "big"}"], nontrivial := inRange }
+
+/-! ### resources -/
+
+def nilOk (n : ResNil) (r : Option Json) (hpLen dvLen uLen : Nat) : Bool :=
+  match r with
+  | none => true
+  | some _ => n.hugepages == appendBuiltNil hpLen && n.devices == appendBuiltNil dvLen && n.unified == (uLen == 0)
+
+def sizeTag (n : Nat) : String := if n == 0 then "0" else if n == 1 then "1" else "n"
+
+def memTags (pre : String) (l : List (String × Bool × Bool)) : List String :=
+  l.flatMap fun (n, set, zero) => if !set then [s!"{pre}{n}:unset"] else if zero then [s!"{pre}{n}:zero"] else [s!"{pre}{n}:set"]
+
+def oI (o : Option I64) : Bool × Bool := (o.isSome, o == some (I64.ofInt 0))
+def oU (o : Option U64) : Bool × Bool := (o.isSome, o == some (U64.ofNat 0))
+def oB (o : Option Bool) : Bool × Bool := (o.isSome, o == some false)
+
+def carriedTags (c : Carried) : List String :=
+  memTags "f:" [("memLimit", oI c.memLimit), ("memReservation", oI c.memReservation), ("memSwap", oI c.memSwap),
+    ("memKernel", oI c.memKernel), ("memKernelTcp", oI c.memKernelTcp), ("memSwappiness", oU c.memSwappiness),
+    ("memDisableOom", oB c.memDisableOom), ("memUseHierarchy", oB c.memUseHierarchy),
+    ("cpuShares", oU c.cpuShares), ("cpuQuota", oI c.cpuQuota), ("cpuPeriod", oU c.cpuPeriod),
+    ("cpuRtRuntime", oI c.cpuRtRuntime), ("cpuRtPeriod", oU c.cpuRtPeriod),
+    ("pids", (c.pids.isSome, c.pids == some ⟨I64.ofInt 0⟩))] ++
+  [s!"hugepages:{sizeTag c.hugepages.length}", s!"unified:{sizeTag c.unified.length}", s!"devcg:{sizeTag c.devices.length}"]
+
+/-- names of the carried fields on which two views differ -/
+def carriedDiff (a b : Carried) : List String :=
+  diffNames [("memory.limit", fun x y => decide (x.memLimit = y.memLimit)),
+    ("memory.reservation", fun x y => decide (x.memReservation = y.memReservation)),
+    ("memory.swap", fun x y => decide (x.memSwap = y.memSwap)),
+    ("memory.kernel", fun x y => decide (x.memKernel = y.memKernel)),
+    ("memory.kernelTcp", fun x y => decide (x.memKernelTcp = y.memKernelTcp)),
+    ("memory.swappiness", fun x y => decide (x.memSwappiness = y.memSwappiness)),
+    ("memory.disableOomKiller", fun x y => decide (x.memDisableOom = y.memDisableOom)),
+    ("memory.useHierarchy", fun x y => decide (x.memUseHierarchy = y.memUseHierarchy)),
+    ("cpu.shares", fun x y => decide (x.cpuShares = y.cpuShares)), ("cpu.quota", fun x y => decide (x.cpuQuota = y.cpuQuota)),
+    ("cpu.period", fun x y => decide (x.cpuPeriod = y.cpuPeriod)),
+    ("cpu.realtimeRuntime", fun x y => decide (x.cpuRtRuntime = y.cpuRtRuntime)),
+    ("cpu.realtimePeriod", fun x y => decide (x.cpuRtPeriod = y.cpuRtPeriod)),
+    ("cpu.cpus", fun x y => decide (x.cpus = y.cpus)), ("cpu.mems", fun x y => decide (x.mems = y.mems)),
+    ("hugepageLimits", fun x y => decide (x.hugepages = y.hugepages)), ("devices", fun x y => decide (x.devices = y.devices)),
+    ("pids", fun x y => decide (x.pids = y.pids)), ("unified", fun x y => decide (x.unified = y.unified))] a b
+
+def carriedDiffO (a b : Option Carried) : String :=
+  match a, b with
+  | some a, some b => toString (carriedDiff a b)
+  | none, none => "[]"
+  | _, _ => "[nil-ness of the whole value]"
+
+def judgeResOci (inp obs : Json) : Except String Verdict := do
+  let src ← decOciRes (getOpt inp "res")
+  let pnc := getStrD obs "panic"
+  let oNri ← decNriRes (getOpt obs "nri")
+  let oBack ← decOciRes (getOpt obs "back")
+  let mNri := fromOCIResources src
+  let mBack := toOCIResources mNri
+  let nilsOk := match getOpt obs "nri", oNri.1 with
+    | some j, some r => nilOk (decResNil j) (some j) r.hugepages.length r.devices.length r.unified.length
+    | _, _ => true
+  let nilsOk2 := match getOpt obs "back", oBack with
+    | some j, some r => nilOk (decResNil j) (some j) r.hugepages.length r.devices.length r.unified.length
+    | _, _ => true
+  let agree := pnc == "" && decide (mNri = oNri.1) && decide (mBack = oBack) && nilsOk && nilsOk2
+  -- property on the implementation's own values: both conversions preserve every carried field
+  let spec := pnc == "" && (match src, oNri.1, oBack with
+    | none, none, none => true
+    | some s, some n, some b => decide (n.carried = s.carried) && decide (b.carried = s.carried)
+    | _, _, _ => false)
+  let tags := match src with
+    | none => ["res:nil"]
+    | some s => carriedTags s.carried ++ tagIf s.memory.isNone "memory:nil" ++ tagIf s.cpu.isNone "cpu:nil" ++
+        tagIf (s.uncarried != []) "oci:uncarried-populated"
+  pure { agree := agree, spec := spec,
+         why := if !spec then s!"OCI->NRI->OCI does not preserve: FromOCILinuxResources changed {carriedDiffO (src.map (·.carried)) (oNri.1.map (·.carried))}, after ToOCI changed {carriedDiffO (src.map (·.carried)) (oBack.map (·.carried))}; panic='{pnc}' {ctx inp obs}"
+                else if !agree then s!"res_oci: model and implementation differ (nri equal={decide (mNri = oNri.1)} back equal={decide (mBack = oBack)} nil-flags={nilsOk},{nilsOk2}) model nri {show' mNri} {ctx inp obs}" else "",
+         sig := if spec then "" else "C14:res:oci-nri-oci",
+         cover := "res_oci" :: tags, nontrivial := src.isSome }
+
+def copyDiff (s c : Option NriResources) : String :=
+  match s, c with
+  | some s, some c => toString (diffNames (α := NriResources)
+      [("memory", fun x y => decide (x.memory = y.memory)), ("cpu", fun x y => decide (x.cpu = y.cpu)),
+       ("hugepageLimits", fun x y => decide (x.hugepages = y.hugepages)), ("unified", fun x y => decide (x.unified = y.unified)),
+       ("pids", fun x y => decide (x.pids = y.pids)), ("blockioClass", fun x y => decide (x.blockioClass = y.blockioClass)),
+       ("rdtClass", fun x y => decide (x.rdtClass = y.rdtClass))] s c)
+  | none, none => "[]"
+  | _, _ => "[nil-ness of the whole value]"
+
+def judgeResNri (inp obs : Json) : Except String Verdict := do
+  let (src, nilHp, nilDv) ← decNriRes (getOpt inp "res")
+  let ociP := getStrD obs "ociPanic"
+  let copyP := getStrD obs "copyPanic"
+  let oOci ← decOciRes (getOpt obs "oci")
+  let (oBack, _, _) ← decNriRes (getOpt obs "back")
+  let (oCopy, _, _) ← decNriRes (getOpt obs "copy")
+  -- faults: ToOCI ranges over hugepages and devices, Copy over hugepages only
+  let toFault := nilHp || nilDv
+  let cpFault := nilHp
+  let mOci := toOCIResources src
+  let mBack := fromOCIResources mOci
+  let mCopy := copyResources src
+  let nl (k : String) (r : Option NriResources) := match getOpt obs k, r with
+    | some j, some r => nilOk (decResNil j) (some j) r.hugepages.length r.devices.length r.unified.length
+    | _, _ => true
+  let nlo := match getOpt obs "oci", oOci with
+    | some j, some r => nilOk (decResNil j) (some j) r.hugepages.length r.devices.length r.unified.length
+    | _, _ => true
+  let agreeTo := if toFault then ociP == "nil-deref"
+    else ociP == "" && decide (mOci = oOci) && decide (mBack = oBack) && nlo && nl "back" oBack
+  let agreeCp := if cpFault then copyP == "nil-deref" else copyP == "" && decide (mCopy = oCopy) && nl "copy" oCopy
+  let excluded := toFault
+  let specTo := toFault || (ociP == "" && (match src, oOci, oBack with
+    | none, none, none => true
+    | some s, some o, some b => decide (o.carried = s.carried) && decide (b.carried = s.carried)
+    | _, _, _ => false))
+  let specCp := cpFault || (copyP == "" && (match src, oCopy with
+    | none, none => true
+    | some s, some c => decide (c.memory = s.memory) && decide (c.cpu = s.cpu) && decide (c.hugepages = s.hugepages) &&
+        decide (c.unified = s.unified) && decide (c.pids = s.pids) && decide (c.blockioClass = s.blockioClass) &&
+        decide (c.rdtClass = s.rdtClass)
+    | _, _ => false))
+  let tags := match src with
+    | none => ["res:nil"]
+    | some s => carriedTags s.carried ++ tagIf s.memory.isNone "memory:nil" ++ tagIf s.cpu.isNone "cpu:nil" ++
+        tagIf s.blockioClass.isSome "nri:blockio-set" ++ tagIf s.rdtClass.isSome "nri:rdt-set" ++
+        tagIf (s.blockioClass == some []) "nri:blockio-empty-string"
+  pure { agree := agreeTo && agreeCp, spec := specTo && specCp, excluded := excluded,
+         why := if !specCp then s!"Copy differs from its source on {copyDiff src oCopy}; panic='{copyP}' {ctx inp obs}"
+                else if !specTo then s!"NRI->OCI->NRI does not preserve: ToOCI changed {carriedDiffO (src.map (·.carried)) (oOci.map (·.carried))}, after FromOCILinuxResources changed {carriedDiffO (src.map (·.carried)) (oBack.map (·.carried))}; panic='{ociP}' {ctx inp obs}"
+                else if !agreeTo then s!"res_nri ToOCI: model and implementation differ (oci equal={decide (mOci = oOci)} back equal={decide (mBack = oBack)}) model oci {show' mOci} panic='{ociP}' {ctx inp obs}"
+                else if !agreeCp then s!"res_nri Copy: model {show' mCopy} panic='{copyP}' {ctx inp obs}" else "",
+         sig := if excluded then "C14:res:nil-element" else if !specCp then "C14:copy" else if !specTo then "C14:res:nri-oci-nri" else "",
+         cover := "res_nri" :: (tags ++ tagIf toFault "res:nil-element"), nontrivial := src.isSome && !excluded }
+
+/-! ### mounts -/
+
+def judgeMountsOci (inp obs : Json) : Except String Verdict := do
+  let src ← (← getArr inp "mounts").mapM decOciMount
+  let pnc := getStrD obs "panic"
+  let oOut ← (← getArr obs "out").mapM decNriMount
+  let oBack ← (← getArr obs "back").mapM decOciMount
+  let oNil := getBoolD obs "outNil"
+  let mOut := fromOCIMounts src
+  let mBack := mOut.map fun m => (mountToOCI m none).1
+  let agree := pnc == "" && decide (mOut = oOut) && decide (mBack = oBack) && oNil == appendBuiltNil src.length
+  let spec := pnc == "" && decide (oBack = src.map fun m => { m with idMapped := false }) &&
+    decide (oOut.map (fun m => (m.destination, m.type, m.source, m.options)) = src.map (fun m => (m.destination, m.type, m.source, m.options)))
+  pure { agree := agree, spec := spec, sig := if spec then "" else "C14:mounts:oci-nri-oci",
+         why := if spec && agree then "" else s!"mounts OCI->NRI->OCI: spec={spec} agree={agree} panic='{pnc}' {ctx inp obs}",
+         cover := ["mounts_oci", s!"mounts:{sizeTag src.length}"] ++ tagIf (src.any (·.idMapped)) "mounts:idmapped",
+         nontrivial := src != [] }
+
+def judgeMountsNri (inp obs : Json) : Except String Verdict := do
+  let raw ← optElems inp "mounts" decNriMount
+  let q ← opt inp "query" decStr
+  let pnc := getStrD obs "panic"
+  match allSome raw with
+  | none =>
+    return { agree := pnc == "nil-deref", spec := true, excluded := true, sig := "C14:mounts:nil-element",
+             why := if pnc == "nil-deref" then "" else s!"expected a nil dereference, got '{pnc}'", cover := ["mounts_nri", "mounts:nil-element"] }
+  | some src =>
+    let oOut ← (← getArr obs "out").mapM decOciMount
+    let oBack ← (← getArr obs "back").mapM decNriMount
+    let oQ ← opt obs "query" decStr
+    -- thread the query through the mounts in order, as generate.go does
+    let (mOut, mQ) := src.foldl (fun (acc : List OciMount × Option Str) m =>
+      let (o, q') := mountToOCI m acc.2; (acc.1 ++ [o], q')) ([], q)
+    let mBack := fromOCIMounts mOut
+    let agree := pnc == "" && decide (mOut = oOut) && decide (mBack = oBack) && decide (mQ = oQ)
+    -- property: round trip is the identity; the query ends as the last propagation option seen
+    let lastProp := (src.flatMap (·.options)).foldl (fun a o => if isPropagation o then some o else a) none
+    let specQ := match q with
+      | none => oQ == none
+      | some init => oQ == some (lastProp.getD init)
+    let spec := pnc == "" && decide (oBack = src) && specQ
+    pure { agree := agree, spec := spec, sig := if spec then "" else "C14:mounts:nri-oci-nri",
+           why := if spec && agree then "" else s!"mounts NRI->OCI->NRI: spec={spec} agree={agree} model query={(mQ.map U)} panic='{pnc}' {ctx inp obs}",
+           cover := ["mounts_nri", s!"mounts:{sizeTag src.length}"] ++ tagIf q.isSome "mounts:query" ++ tagIf lastProp.isSome "mounts:propagation",
+           nontrivial := src != [] }
+
+/-! ### devices -/
+
+def judgeDevsOci (inp obs : Json) : Except String Verdict := do
+  let src ← (← getArr inp "devices").mapM decDev
+  let pnc := getStrD obs "panic"
+  let oOut ← (← getArr obs "out").mapM decDev
+  let oBack ← (← getArr obs "back").mapM decDev
+  let oNil := getBoolD obs "outNil"
+  let mOut := fromOCIDevices src
+  let mBack := mOut.map fun d => deviceToOCI (some d)
+  let agree := pnc == "" && decide (mOut = oOut) && decide (mBack = oBack) && oNil == appendBuiltNil src.length
+  let spec := pnc == "" && decide (oOut = src) && decide (oBack = src)
+  pure { agree := agree, spec := spec, sig := if spec then "" else "C14:devices:oci-nri-oci",
+         why := if spec && agree then "" else s!"devices OCI->NRI->OCI: spec={spec} agree={agree} panic='{pnc}' {ctx inp obs}",
+         cover := ["devices_oci", s!"devices:{sizeTag src.length}"] ++
+           tagIf (src.any (·.fileMode.isSome)) "dev:mode-set" ++ tagIf (src.any (·.fileMode == some (U32.ofNat 0))) "dev:mode-zero" ++
+           tagIf (src.any (·.fileMode.isNone)) "dev:mode-unset" ++ tagIf (src.any (·.uid == some (U32.ofNat 0))) "dev:uid-zero",
+         nontrivial := src != [] }
+
+def judgeDevsNri (inp obs : Json) : Except String Verdict := do
+  let raw ← optElems inp "devices" decDev
+  let pnc := getStrD obs "panic"
+  let oOut ← (← getArr obs "out").mapM decDev
+  let oBack ← (← getArr obs "back").mapM decDev
+  let oAcc ← strList obs "access"
+  let mOut := raw.map deviceToOCI
+  let mBack := fromOCIDevices mOut
+  let mAcc := raw.map fun d => match d with | none => [] | some d => accessString d
+  let agree := pnc == "" && decide (mOut = oOut) && decide (mBack = oBack) && decide (mAcc = oAcc)
+  let hasNil := (allSome raw).isNone
+  let want := raw.map fun d => d.getD zeroDevice
+  let spec := pnc == "" && decide (oOut = want) && decide (oBack = want)
+  pure { agree := agree, spec := spec, excluded := hasNil,
+         sig := if hasNil then "C14:devices:nil-element" else if spec then "" else "C14:devices:nri-oci-nri",
+         why := if spec && agree then "" else s!"devices NRI->OCI->NRI: spec={spec} agree={agree} panic='{pnc}' {ctx inp obs}",
+         cover := ["devices_nri", s!"devices:{sizeTag raw.length}"] ++ tagIf hasNil "devices:nil-element", nontrivial := raw != [] && !hasNil }
+
+/-! ### hooks -/
+
+def hooksLists (h : Hooks) : List (List Hook) :=
+  [h.prestart, h.createRuntime, h.createContainer, h.startContainer, h.poststart, h.poststop]
+
+def hooksMap (f : Hook → Hook) (h : Hooks) : Hooks :=
+  ⟨h.prestart.map f, h.createRuntime.map f, h.createContainer.map f, h.startContainer.map f, h.poststart.map f, h.poststop.map f⟩
+/-- list-wise concatenation, written independently of the model's `hooksAppend` -/
+def hooksZip (h x : Hooks) : Hooks :=
+  ⟨h.prestart ++ x.prestart, h.createRuntime ++ x.createRuntime, h.createContainer ++ x.createContainer,
+   h.startContainer ++ x.startContainer, h.poststart ++ x.poststart, h.poststop ++ x.poststop⟩
+
+def judgeHooksOci (inp obs : Json) : Except String Verdict := do
+  let (src, _) ← decHooks (getOpt inp "hooks")
+  let pnc := getStrD obs "panic"
+  let (oOut, _) ← decHooks (getOpt obs "out")
+  let (oBack, _) ← decHooks (getOpt obs "back")
+  let oNE := getBoolD obs "nonEmpty"
+  let mOut := fromOCIHooks src
+  let mBack := mOut.map (hooksMap hookToOCI)
+  let mNE := (hooksHooks mOut).isSome
+  let nilsOk := match getOpt obs "out", oOut with
+    | some j, some h => (match j.getObjValAs? (List Bool) "nils" with
+        | .ok ns => ns == (hooksLists h).map (fun l => appendBuiltNil l.length)
+        | .error _ => false)
+    | _, _ => true
+  let agree := pnc == "" && decide (mOut = oOut) && decide (mBack = oBack) && mNE == oNE && nilsOk
+  let spec := pnc == "" && decide (oOut = src) && decide (oBack = src) &&
+    (oNE == (match src with | none => false | some h => (hooksLists h).any (· != [])))
+  pure { agree := agree, spec := spec, sig := if spec then "" else "C14:hooks:oci-nri-oci",
+         why := if spec && agree then "" else s!"hooks OCI->NRI->OCI: spec={spec} agree={agree} nil-flags={nilsOk} panic='{pnc}' {ctx inp obs}",
+         cover := ["hooks_oci"] ++ tagIf src.isNone "hooks:nil" ++ tagIf oNE "hooks:nonempty", nontrivial := oNE }
+
+def judgeHooksNri (inp obs : Json) : Except String Verdict := do
+  let (src, bad) ← decHooks (getOpt inp "hooks")
+  let (extra, _) ← decHooks (getOpt inp "extra")
+  let pnc := getStrD obs "panic"
+  if bad then
+    return { agree := pnc == "nil-deref", spec := true, excluded := true, sig := "C14:hooks:nil-element",
+             why := if pnc == "nil-deref" then "" else s!"expected a nil dereference, got '{pnc}'", cover := ["hooks_nri", "hooks:nil-element"] }
+  let (oOut, _) ← decHooks (getOpt obs "out")
+  let (oBack, _) ← decHooks (getOpt obs "back")
+  let (oApp, _) ← decHooks (getOpt obs "appended")
+  let oNE := getBoolD obs "nonEmpty"
+  let mOut := src.map (hooksMap hookToOCI)
+  let mBack := fromOCIHooks mOut
+  let mApp := src.map fun h => hooksAppend h extra
+  let mNE := (hooksHooks src).isSome
+  let agree := pnc == "" && decide (mOut = oOut) && decide (mBack = oBack) && decide (mApp = oApp) && mNE == oNE
+  let wantApp := src.map fun h => match extra with
+    | none => h
+    | some x => hooksZip h x
+  let spec := pnc == "" && decide (oOut = src) && decide (oBack = src) && decide (oApp = wantApp)
+  pure { agree := agree, spec := spec, sig := if spec then "" else "C14:hooks:nri-oci-nri",
+         why := if spec && agree then "" else s!"hooks NRI->OCI->NRI/Append: spec={spec} agree={agree} panic='{pnc}' {ctx inp obs}",
+         cover := ["hooks_nri"] ++ tagIf src.isNone "hooks:nil" ++ tagIf oNE "hooks:nonempty" ++ tagIf extra.isSome "hooks:append",
+         nontrivial := oNE }
+
+/-! ### env -/
+
+def judgeEnvOci (inp obs : Json) : Except String Verdict := do
+  let src ← strList inp "env"
+  let isNil := getBoolD inp "nil"
+  let pnc := getStrD obs "panic"
+  let oKVs ← (← getArr obs "kvs").mapM decKV
+  let oEnv ← strList obs "env"
+  let oNil := getBoolD obs "outNil"
+  let mKVs := fromOCIEnv src
+  let mEnv := mKVs.map kvToOCI
+  let agree := pnc == "" && decide (mKVs = oKVs) && decide (mEnv = oEnv) && oNil == dupNil isNil
+  let allEq := src.all fun s => s.contains '='
+  -- in the domain (every entry has '='): the round trip is the identity and every key is '='-free
+  let spec := pnc == "" && (if allEq then decide (oEnv = src) && oKVs.all (fun kv => !kv.key.contains '=')
+                            else decide (oEnv = src.map fun s => if s.contains '=' then s else s ++ ['=']))
+  pure { agree := agree, spec := spec, excluded := !allEq,
+         sig := if !allEq then "C14:env:entry-without-eq" else if spec then "" else "C14:env:oci-nri-oci",
+         why := if spec && agree then "" else s!"env OCI->NRI->OCI: spec={spec} agree={agree} panic='{pnc}' {ctx inp obs}",
+         cover := ["env_oci", s!"env:{sizeTag src.length}"] ++ tagIf (!allEq) "env:no-eq" ++
+           tagIf (src.any fun s => (s.filter (· == '=')).length > 1) "env:several-eq",
+         nontrivial := src != [] && allEq }
+
+def judgeEnvNri (inp obs : Json) : Except String Verdict := do
+  let raw ← optElems inp "kvs" decKV
+  let pnc := getStrD obs "panic"
+  match allSome raw with
+  | none =>
+    return { agree := pnc == "nil-deref", spec := true, excluded := true, sig := "C14:env:nil-element",
+             why := if pnc == "nil-deref" then "" else s!"expected a nil dereference, got '{pnc}'", cover := ["env_nri", "env:nil-element"] }
+  | some src =>
+    let oKVs ← (← getArr obs "kvs").mapM decKV
+    let oEnv ← strList obs "env"
+    let mEnv := src.map kvToOCI
+    let mKVs := fromOCIEnv mEnv
+    let agree := pnc == "" && decide (mKVs = oKVs) && decide (mEnv = oEnv)
+    let noEq := src.all fun kv => !kv.key.contains '='
+    let spec := pnc == "" && (!noEq || decide (oKVs = src))
+    pure { agree := agree, spec := spec, excluded := !noEq,
+           sig := if !noEq then "C14:env:key-with-eq" else if spec then "" else "C14:env:nri-oci-nri",
+           why := if spec && agree then "" else s!"env NRI->OCI->NRI: spec={spec} agree={agree} panic='{pnc}' {ctx inp obs}",
+           cover := ["env_nri", s!"env:{sizeTag src.length}"] ++ tagIf (!noEq) "env:key-with-eq" ++
+             tagIf (src.any fun kv => kv.value.contains '=') "env:value-with-eq" ++ tagIf (src.any fun kv => kv.value == []) "env:empty-value",
+           nontrivial := src != [] && noEq }
+
+/-! ### helpers -/
+
+def judgeHelpers (inp obs : Json) : Except String Verdict := do
+  let ss ← strList inp "strs"
+  let isNil := getBoolD inp "nil"
+  let mp ← pairList inp "map"
+  let mapNil := mp == [] && !getBoolD inp "empty"
+  let key := S (getStrD inp "key")
+  let pnc := getStrD obs "panic"
+  let oS ← strList obs "strs"
+  let oM ← pairList obs "map"
+  let (u, marked) := isMarkedForRemoval key
+  let agree := pnc == "" && decide (dupStringSlice ss = oS) && getBoolD obs "strsNil" == dupNil (isNil && ss == []) &&
+    decide (dupMap mp = oM) && getBoolD obs "mapNil" == dupNil mapNil &&
+    S (getStrD obs "unmarked") == u && getBoolD obs "isMarked" == marked &&
+    S (getStrD obs "marked") == markForRemoval key && S (getStrD obs "cleared") == clearRemovalMarker key
+  let spec := pnc == "" && decide (oS = ss) && decide (oM = mp)
+  pure { agree := agree, spec := spec, sig := if spec then "" else "C14:helpers:dup",
+         why := if spec && agree then "" else s!"helpers: spec={spec} agree={agree} panic='{pnc}' {ctx inp obs}",
+         cover := ["helpers"] ++ tagIf marked "helpers:marked", nontrivial := ss != [] || mp != [] }
+
+/-! ### optional constructors -/
+
+/-- which dynamic argument types each constructor's type switch accepts -/
+def accepted (ctor arg : String) : Bool :=
+  match ctor with
+  | "Int64" | "UInt64" => ["int", "uint", "int64", "uint64", "*int64", "*uint64", "*Opt"].contains arg
+  | "FileMode" => ["os.FileMode", "*os.FileMode", "*Opt", "uint32"].contains arg
+  | _ => ["T", "*T", "*Opt"].contains arg
+
+def judgeCtor (inp obs : Json) : Except String Verdict := do
+  let ctor ← getStr inp "ctor"
+  let arg ← getStr inp "arg"
+  let isNil := getBoolD inp "nil"
+  let i ← req inp "i" decI64
+  let u ← req inp "u" decU64
+  let b := getBoolD inp "b"
+  let s := S (getStrD inp "s")
+  let pnc := getStrD obs "panic"
+  let oSet := getBoolD obs "set"
+  let oGetSet := getBoolD obs "getSet"
+  let ptr {α} (v : α) : Option α := if isNil then none else some v
+  let acc := accepted ctor arg
+  -- (model result, implementation result, implementation Get result, exact?) all rendered as Option String
+  -- `exact`: the mathematical value of the argument equals the mathematical value stored
+  let mk {α} [Repr α] [DecidableEq α] (m : Option α) (oVal oGet : α) : Bool × String :=
+    let impl : Option α := if oSet then some oVal else none
+    let implGet : Option α := if oGetSet then some oGet else none
+    (decide (m = impl) && decide (optGet impl = implGet), s!"model {reprStr m} impl {reprStr impl} get {reprStr implGet}")
+  let oI ← req obs "i" decI64
+  let oU ← req obs "u" decU64
+  let gI ← req obs "getI" decI64
+  let gU ← req obs "getU" decU64
+  let i32 (x : I64) : I32 := I32.ofInt x.val
+  let u32 (x : U64) : U32 := U32.ofNat x.val
+  let (agree, txt, wraps) ← match ctor with
+    | "String" =>
+      let a : Arg Str := match arg with | "T" => .val s | "*T" => .ptr (ptr s) | "*Opt" => .opt (ptr s) | _ => .other
+      let (ok, t) := mk (optString a) (S (getStrD obs "s")) (S (getStrD obs "getS")); pure (ok, t, false)
+    | "Bool" =>
+      let a : Arg Bool := match arg with | "T" => .val b | "*T" => .ptr (ptr b) | "*Opt" => .opt (ptr b) | _ => .other
+      let (ok, t) := mk (optBool a) (getBoolD obs "b") (getBoolD obs "getB"); pure (ok, t, false)
+    | "Int" =>
+      let a : Arg I64 := match arg with | "T" => .val i | "*T" => .ptr (ptr i) | "*Opt" => .opt (ptr i) | _ => .other
+      let (ok, t) := mk (optInt a) oI gI; pure (ok, t, false)
+    | "Int32" =>
+      let a : Arg I32 := match arg with | "T" => .val (i32 i) | "*T" => .ptr (ptr (i32 i)) | "*Opt" => .opt (ptr (i32 i)) | _ => .other
+      let (ok, t) := mk (optInt32 a) (i32 oI) (i32 gI); pure (ok, t, false)
+    | "UInt32" =>
+      let a : Arg U32 := match arg with | "T" => .val (u32 u) | "*T" => .ptr (ptr (u32 u)) | "*Opt" => .opt (ptr (u32 u)) | _ => .other
+      let (ok, t) := mk (optUInt32 a) (u32 oU) (u32 gU); pure (ok, t, false)
+    | "FileMode" =>
+      let a : FileModeArg := match arg with
+        | "os.FileMode" => .mode (u32 u) | "*os.FileMode" => .pMode (ptr (u32 u)) | "*Opt" => .opt (ptr (u32 u))
+        | "uint32" => .u32 (u32 u) | _ => .other
+      let (ok, t) := mk (optFileMode a) (u32 oU) (u32 gU); pure (ok, t, false)
+    | "Int64" =>
+      let a : Int64Arg := match arg with
+        | "int" => .int i | "uint" => .uint u | "int64" => .int64 i | "uint64" => .uint64 u
+        | "*int64" => .pInt64 (ptr i) | "*uint64" => .pUint64 (ptr u) | "*Opt" => .opt (ptr i) | _ => .other
+      let unsignedArg := arg == "uint" || arg == "uint64" || arg == "*uint64"
+      let (ok, t) := mk (optInt64 a) oI gI
+      pure (ok, t, unsignedArg && !isNil && u.val ≥ 2^63)
+    | "UInt64" =>
+      let a : UInt64Arg := match arg with
+        | "int" => .int i | "uint" => .uint u | "int64" => .int64 i | "uint64" => .uint64 u
+        | "*int64" => .pInt64 (ptr i) | "*uint64" => .pUint64 (ptr u) | "*Opt" => .opt (ptr u) | _ => .other
+      let signedArg := arg == "int" || arg == "int64" || arg == "*int64"
+      let (ok, t) := mk (optUInt64 a) oU gU
+      pure (ok, t, signedArg && !isNil && i.val < 0)
+    | c => throw s!"unknown constructor {c}"
+  -- the property on the implementation's own values: nil ↦ unset; a value ↦ set, with exactly
+  -- that (mathematical) value; Get returns what was stored
+  let isPtr := arg.startsWith "*"
+  let valueOk : Bool := match ctor with
+    | "String" => S (getStrD obs "s") == s && S (getStrD obs "getS") == s
+    | "Bool" => getBoolD obs "b" == b && getBoolD obs "getB" == b
+    | "Int" | "Int32" => oI.val == i.val && gI.val == i.val
+    | "UInt32" | "FileMode" => oU.val == u.val && gU.val == u.val
+    | "Int64" => if arg == "uint" || arg == "uint64" || arg == "*uint64" then oI.val == (u.val : Int) && gI.val == (u.val : Int)
+                 else oI.val == i.val && gI.val == i.val
+    | _ => if arg == "int" || arg == "int64" || arg == "*int64" then (oU.val : Int) == i.val && (gU.val : Int) == i.val
+           else oU.val == u.val && gU.val == u.val
+  let spec := pnc == "" && (if isPtr && isNil then !oSet && !oGetSet else oSet && oGetSet && valueOk)
+  let excluded := !acc || wraps
+  pure { agree := pnc == "" && agree, spec := spec || excluded, excluded := excluded,
+         sig := if !acc then "C14:ctor:unaccepted-type" else if wraps then "C14:ctor:value-not-representable"
+                else if spec then "" else "C14:ctor",
+         why := if (spec || excluded) && agree then "" else s!"{ctor}({arg}{if isNil then " nil" else ""} i={i.val} u={u.val} b={b}): {txt} panic={pnc}",
+         cover := ["ctor", s!"ctor:{ctor}:{arg}{if isPtr then (if isNil then ":nil" else ":value") else ""}"] ++ tagIf wraps "ctor:wraps",
+         nontrivial := acc && !wraps }
+
+/-! ### aliasing (measured by the harness) -/
+
+/-- locations that must have been probed in the copy of a resources value, given the source -/
+def expectedCopyProbes (r : NriResources) : List String :=
+  (match r.memory with
+   | none => []
+   | some m => tagIf m.limit.isSome ".Memory.Limit.Value" ++ tagIf m.swappiness.isSome ".Memory.Swappiness.Value" ++
+       tagIf m.disableOom.isSome ".Memory.DisableOomKiller.Value" ++ [".Memory.Limit(ptr)", ".Memory(ptr)"]) ++
+  (match r.cpu with
+   | none => []
+   | some c => tagIf c.shares.isSome ".Cpu.Shares.Value" ++ tagIf c.quota.isSome ".Cpu.Quota.Value" ++ [".Cpu.Cpus", ".Cpu.Mems"]) ++
+  ((List.range r.hugepages.length).flatMap fun i => [s!".HugepageLimits[{i}].Limit", s!".HugepageLimits[{i}].PageSize", s!".HugepageLimits[{i}](ptr)"]) ++
+  ((List.range r.unified.length).map fun i => s!".Unified[k{i}]") ++ tagIf (r.unified != []) ".Unified(insert)" ++
+  tagIf r.pids.isSome ".Pids.Limit" ++ tagIf r.blockioClass.isSome ".BlockioClass.Value" ++ tagIf r.rdtClass.isSome ".RdtClass.Value"
+
+def judgeAlias (inp obs : Json) : Except String Verdict := do
+  let what ← getStr inp "what"
+  let pnc := getStrD obs "panic"
+  let probes ← getArr obs "probes"
+  let shared ← getStrList obs "shared"
+  let ps ← probes.mapM fun p => do pure (← getStr p "path", ← getStr p "dir", ← getBool p "leaked")
+  let leaked := ps.filter (·.2.2)
+  -- completeness of the probe set for Copy: every location the input makes reachable was mutated, both ways
+  let (complete, missing) ← (do
+    if what != "copy" then pure (true, "") else
+    let (src, _, _) ← decNriRes (getOpt inp "res")
+    match src with
+    | none => pure (true, "")
+    | some r =>
+      let want := expectedCopyProbes r
+      let miss := (["a", "b"].flatMap fun d => (want.filter fun w => !(ps.any fun p => p.1 == w && p.2.1 == d)).map (d ++ ":" ++ ·))
+      pure (miss == [], toString miss) : Except String (Bool × String))
+  let spec := pnc == "" && leaked == [] && shared == []
+  pure { agree := pnc == "" && complete, spec := spec,
+         sig := if spec then "" else s!"C14:alias:{what}",
+         why := if !spec then s!"{what}: state shared between a value and its copy/conversion: leaked {leaked.map (fun p => p.2.1 ++ ":" ++ p.1)} shared {shared} panic={pnc}"
+                else if !complete then s!"{what}: locations not probed: {missing}" else "",
+         cover := ["alias", s!"alias:{what}", s!"alias:probes:{if ps.length == 0 then "0" else if ps.length < 20 then "<20" else if ps.length < 60 then "<60" else "60+"}"],
+         nontrivial := ps.length > 0 }
+
+def judgePlatform (obs : Json) : Except String Verdict := do
+  let n := getNatD obs "intSize"
+  pure { agree := n == 64, spec := true, why := if n == 64 then "" else s!"Go int is {n} bits wide; the model assumes 64",
+         cover := ["platform"] }
+
 def judge (j : Json) : Except String Verdict := do
   let inp ← getObj j "in"
   let obs ← getObj j "obs"
   match getStrD inp "kind" with
   | "mask" => judgeMask inp obs
+  | "parse" => judgeParse inp obs
+  | "bits" => judgeBits inp obs
+  | "res_oci" => judgeResOci inp obs
+  | "res_nri" => judgeResNri inp obs
+  | "mounts_oci" => judgeMountsOci inp obs
+  | "mounts_nri" => judgeMountsNri inp obs
+  | "devices_oci" => judgeDevsOci inp obs
+  | "devices_nri" => judgeDevsNri inp obs
+  | "hooks_oci" => judgeHooksOci inp obs
+  | "hooks_nri" => judgeHooksNri inp obs
+  | "env_oci" => judgeEnvOci inp obs
+  | "env_nri" => judgeEnvNri inp obs
+  | "helpers" => judgeHelpers inp obs
+  | "ctor" => judgeCtor inp obs
+  | "alias" => judgeAlias inp obs
+  | "platform" => judgePlatform obs
   | k => throw s!"unknown case kind {k}"
 
 def main : IO UInt32 := runLines judge
